@@ -720,6 +720,14 @@ func c06Cases() []c06Case {
 		c06Case{rule: "C06.d", table: "csi", key: "A", name: "CUU 2 above the region moves up two rows", ps: 2, pre: with(above, c05L(c05Row, -1, 2)), post: []c06Post{c06Eq("row == row0-2", c05Row, 1, g0Row, -1, 2), colSame}},
 		c06Case{rule: "C06.d", table: "csi", key: "A", name: "CUU on the first row above the region keeps the row", ps: 1, pre: with(above, c05L(c05Row, 1)), post: []c06Post{rowSame, colSame}},
 		c06Case{rule: "C06.d", table: "csi", key: "A", name: "CUU 2 below the region moves up two rows", ps: 2, pre: with(below, c05L(c05Top_, 1, c05Row, -1, 2)), post: []c06Post{c06Eq("row == row0-2", c05Row, 1, g0Row, -1, 2), colSame}},
+		// the margin stops are ONE-SIDED (xterm CursorUp: `if screen->cur_row >= screen->top_marg then max = top_marg
+		// else max = 0`; CursorDown symmetric): the top margin stops every upward move that starts at or below it —
+		// also one that starts below the bottom margin — and the bottom margin every downward move that starts at or
+		// above it — also one that starts above the top margin
+		c06Case{rule: "C06.d", table: "csi", key: "A", name: "CUU from below the region stops at the top margin", ps: geoPlus("ROWS", 5), margins: true, pre: below, post: []c06Post{c06Eq("row == top margin", c05Row, 1, c05Top_, -1), c06Eq("top margin unchanged", c05Top_, 1, g0Top, -1), colSame}},
+		c06Case{rule: "C06.d", table: "csi", key: "B", name: "CUD from above the region stops at the bottom margin", ps: geoPlus("ROWS", 5), margins: true, pre: above, post: []c06Post{c06Eq("row == bottom margin", c05Row, 1, c05Bot, -1), c06Eq("bottom margin unchanged", c05Bot, 1, g0Bot, -1), colSame}},
+		c06Case{rule: "C06.d", table: "csi", key: "A", name: "CUU 3 from the row below the region crosses to the top margin", ps: 3, minRows: 4, margins: true, pre: with(below, c05L(c05Row, 1, c05Bot, -1, -1), c05L(c05Bot, 1, c05Top_, -1, -1)), post: []c06Post{c06Eq("row == top margin", c05Row, 1, c05Top_, -1), colSame}},
+		c06Case{rule: "C06.d", table: "csi", key: "B", name: "CUD 3 from the row above the region crosses to the bottom margin", ps: 3, minRows: 4, margins: true, pre: with(above, c05L(c05Top_, 1, c05Row, -1, -1), c05L(c05Bot, 1, c05Top_, -1, -1)), post: []c06Post{c06Eq("row == bottom margin", c05Row, 1, c05Bot, -1), colSame}},
 		c06Case{rule: "C06.d", table: "esc", key: "D", name: "IND below the region moves down one row", pre: with(below, c05L(c05Row, 1, "ROWS", -1, 2)), post: []c06Post{c06Eq("row == row0+1", c05Row, 1, g0Row, -1, -1), colSame}},
 		c06Case{rule: "C06.d", table: "esc", key: "D", name: "IND on the last row below the region keeps the row", pre: with(below, c05L("ROWS", 1, c05Row, -1, -1)), post: []c06Post{rowSame, colSame}},
 		c06Case{rule: "C06.d", table: "esc", key: "E", name: "NEL below the region goes to column 0 of the next row", pre: with(below, c05L(c05Row, 1, "ROWS", -1, 2)), post: []c06Post{c06Eq("row == row0+1", c05Row, 1, g0Row, -1, -1), col0}},
@@ -789,7 +797,7 @@ func (e *c05Eng) ghostify(st *c05State, key, g string) {
 }
 
 func c06RuleContracts(c *Ctx, e *c05Eng, tabs map[string]*c06Table) {
-	c.expect("C06.d", 35)
+	c.expect("C06.d", 39)
 	c06RunContracts(c, e, tabs, c06Cases())
 }
 
